@@ -36,6 +36,23 @@ theorem c19_serialize_poly (g : Dag) (hg : g.WF) (root : Nat) (hr : root < g.len
     toBocSteps g root hasIdx hasCrc hasCache ≤ 5 * (g.length + edges g) + 1 + (toBoc g root hasIdx hasCrc hasCache).bytes :=
   toBoc_steps_le g hg root hr hasIdx hasCrc hasCache
 
+/-- the quantity the measured tie of construction uses (`lines ≤ 60·hashWork + 100`) is linear: `hashWork = 4·(n + e)` -/
+theorem c19_hash_work_closed (g : Dag) : hashWork g = 4 * (g.length + edges g) := hashWork_eq g
+
+/-- CONSTRUCTING / HASHING a DAG: `Cell.__init__` (`resolve_mask` + `calculate_hashes`) is called once per distinct cell,
+children first, and reads the referenced cells' cached masks / depths / hashes (it never descends).  With `lv v ≤ 4`
+hashes per cell (level ≤ 3): loop iterations `≤ 4n + 9e` (`≤ 9/4 · hashWork`), bytes fed to SHA-256
+`≤ 4·(descriptor+data bytes) + 136·(n + e)` — each hash is over `≤ 2 + 128 + 4·34` bytes.  Shared sub-DAGs cost nothing
+extra: the sums range over distinct cells and references, not over paths (contrast `rehashCalls`, below). -/
+theorem c19_build_linear (lv : Nat → Nat) (g : Dag) (h : ∀ v, lv v ≤ 4) :
+    buildSteps lv g ≤ 4 * g.length + 9 * edges g ∧
+    buildBytes lv g ≤ 4 * cellBytes g + 136 * (g.length + edges g) ∧
+    4 * buildSteps lv g ≤ 9 * hashWork g := by
+  have h1 := buildSteps_le lv g h
+  have h2 := buildBytes_le lv g h
+  have h3 := hashWork_eq g
+  exact ⟨h1, h2, by omega⟩
+
 /-- `Cell.from_boc(bs)` for EVERY byte string: the three loops of `Boc.deserialize` (over `cells_num`, reversed
 `cells_num`, `root_list`) run at most `len(bs) + 1` iterations in total — a count field larger than the bytes that
 follow is cut by a length check or by running out of bytes. -/
@@ -141,6 +158,12 @@ example : diamond.WF := by
 /-- the bound is attained: 1 + n + e = 1 + 4 + 6 iterations; the recursive code before fix 563b428 made 2^4 - 1 calls -/
 example : orderVisits chain3 3 = 11 ∧ 1 + chain3.length + edges chain3 = 11 ∧ oldOrderCalls chain3 4 3 = 15 := by decide
 example : (orderRun diamond 3).post = [3, 1, 2, 0] ∧ orderVisits diamond 3 = 9 := by decide
+
+/-- construction of `chain3` (4 cells, 6 references): 4 constructor calls, 22 loop iterations, ≤ 340 hashed bytes with one
+hash per cell; 70 iterations at 4 hashes per cell = the bound `4n + 9e`; hashing without the cache would make
+`2^4 - 1 = 15` constructor calls -/
+example : buildSteps (fun _ => 1) chain3 = 22 ∧ buildBytes (fun _ => 1) chain3 = 340 ∧ buildSteps (fun _ => 4) chain3 = 70 ∧
+    4 * chain3.length + 9 * edges chain3 = 70 ∧ hashWork chain3 = 40 ∧ rehashCalls chain3 4 3 = 15 := by decide
 
 /-- a 14-byte bag claiming 255 cells over a 3-byte body: the cells loop stops after 2 iterations -/
 example : (bocCost [0xb5, 0xee, 0x9c, 0x72, 0x01, 0x01, 0xff, 0x01, 0x00, 0x03, 0x00, 0x00, 0x02, 0xaa]).loop1 = 2 := by decide
